@@ -150,6 +150,34 @@ def simulateRogue (nb len L : Nat) (rows : Rows) : RProg (Rows × List String ×
       .pure (rows', (p.take nb).filterMap (fun i => (rows[i]?).map Prod.fst),
                     (p.drop nb).filterMap (fun i => (rows[i]?).map Prod.fst))
 
+/-- one draw of `rarefySeqBag`: scan the (sorted) names, accumulating `count/total`, and take the first
+name whose cumulated probability exceeds the draw; its count is decremented, a name that reaches 0 is
+removed.  `none`: the draw is not below the final cumulated value (rounding), nothing is selected. -/
+def rarefyPick (unif : Float) (total : Nat) : List (String × Nat) → Float → List (String × Nat) →
+    Option (String × List (String × Nat))
+  | [], _, _ => none
+  | (k, v) :: rest, proba, done =>
+    let proba := proba + Float.ofNat v / Float.ofNat total
+    if unif < proba then
+      some (k, if v - 1 == 0 then done.reverse ++ rest else done.reverse ++ (k, v - 1) :: rest)
+    else rarefyPick unif total rest proba ((k, v) :: done)
+
+def rarefyLoop : Nat → Nat → List (String × Nat) → List String → RProg (List String)
+  | 0, _, _, sel => .pure sel
+  | n + 1, total, cs, sel => .unit fun u =>
+    match rarefyPick u total cs 0.0 [] with
+    | some (k, cs') => rarefyLoop n (total - 1) cs' (k :: sel)
+    | none => rarefyLoop n (total - 1) cs sel
+
+/-- `Rarefy(nb, counts)`: `counts` sorted by name (the code sorts the keys).  `none` = error (a count
+≤ 0 is not representable here: the caller filters; unknown name; `nb ≥ Σ counts`). -/
+def rarefy (nb : Nat) (counts : List (String × Nat)) (rows : Rows) : Option (RProg Rows) :=
+  if counts.any (fun c => c.2 == 0 || !(rows.any fun r => r.1 == c.1)) then none
+  else
+    let total := (counts.map Prod.snd).foldl (· + ·) 0
+    if nb ≥ total then none
+    else some (RProg.bind (rarefyLoop nb total counts []) fun sel => .pure (rows.filter fun r => sel.contains r.1))
+
 /-- the Go generator as an `RProg.Gen` -/
 def goGen : RProg.Gen GoRng.St := { intn := GoRng.intn, unit := GoRng.float64 }
 
